@@ -178,7 +178,7 @@ class Run:
         seen.add(goal.get_id())
         self._keep.append(goal)
         n = sum(1 for o in self.obls if o.kind == "safety")
-        self.oblige(f"safe.{what}.{n}", "safety", goal)
+        self.oblige(f"safe.{what}.{n}", "safety", goal, using=getattr(self, "safety_using", None))
         # after the check the operation is taken to have succeeded
         self.add_fact("safety", f"safe{n}", goal)
 
